@@ -128,6 +128,19 @@ def gen_cases(ctx):
                 ops.append('w%d' % (rng.choice([1, 2, 4]) * UNIT))
         fine.append(ops)
     cases += [c for c in fine if fine_ok(c)]
+    # commands back to back: in every run of two or more consecutive commands all but the last are issued without giving the timer
+    # task a turn (S / R / X), as code that calls start(); stop_and_reset() with no await in between does; the settled model
+    # applies unchanged because no time passes inside such a run
+    def back_to_back(ops):
+        out = list(ops)
+        changed = False
+        for i in range(len(out) - 1):
+            if out[i] in ('s', 'r', 'x') and out[i + 1][0] in 'srxSRX':
+                out[i] = out[i].upper()
+                changed = True
+        return out if changed else None
+    b2b = [x for x in (back_to_back(c) for c in cases[:60000] if len(c) <= 6) if x]
+    cases += b2b
     # keep total elapsed time below 50 units so that no command lands on a deadline
     out = []
     for ops in cases:
@@ -154,6 +167,8 @@ def oracle(ctx, ops, toks, line, interval):
     for o, tk in zip(ops, toks):
         if tk == 'OVERRUN':
             return
+        if o[0] in 'SRX':
+            o = o.lower()
         if o == 's':
             last_anchor = now
             on = True
@@ -217,6 +232,10 @@ def run(ctx):
         if obs == 'PANIC':
             ctx.violation('a timer history panicked', case=head, impl=l)
             continue
+        if obs in ('HANG', 'SKIPPED'):
+            if obs == 'HANG':
+                ctx.violation('a timer history did not end within 30 s of wall-clock time under a paused clock (a task that spins)', case=head, impl=l)
+            continue
         n_zero += 1
         oracle(ctx, head.split()[2].split(','), obs.split(), l, 0)
     n_over = 0
@@ -229,6 +248,10 @@ def run(ctx):
         toks = obs.split()
         if obs == 'PANIC':
             ctx.violation('a timer history panicked', case=head, impl=l)
+            continue
+        if obs in ('HANG', 'SKIPPED'):
+            if obs == 'HANG':
+                ctx.violation('a timer history did not end within 30 s of wall-clock time under a paused clock (a task that spins)', case=head, impl=l)
             continue
         mt = None
         if model is not None:
